@@ -9,7 +9,8 @@ for spec in "$@"; do
   name="${spec%%:*}"; ids="${spec#*:}"
   [ "$ids" = "$spec" ] && ids="${name%%-*}"
   if ! git -C /repo diff --quiet; then echo "/repo dirty; stop"; exit 9; fi
-  git -C /repo apply "/verif/seeded/$name/patch.diff" || { echo "$name: patch does not apply" | tee "$out/$name.log"; continue; }
+  pdir="/verif/seeded/$name"; [ -d "/verif/harmless/$name" ] && pdir="/verif/harmless/$name"
+  git -C /repo apply "$pdir/patch.diff" || { echo "$name: patch does not apply" | tee "$out/$name.log"; continue; }
   : > "$out/$name.log"
   for id in ${ids//,/ }; do
     ./check "$id" 2>&1 | grep -E "^\[|VIOLATION|KNOWN|INFRA|oracle:|first in-scope|proof stage" | cut -c1-300 >> "$out/$name.log"
